@@ -22,7 +22,8 @@ ScriptHs2 == <<{"phase"}, {"send"}, {"send", "phase"}, {"adv"}, {"tick", "acktop
 ScriptLoss == <<{"send"}, {"send"}, {"send"}, {"send"}, {"ack"}, {"ack", "adv"}, {"tick", "ack"}>>
 ScriptLoss2 == <<{"send"}, {"send"}, {"send"}, {"send"}, {"ack"}, {"ack", "adv"}, {"tick", "ack"}, {"adv"}, {"tick"}>>
 \* consecutive probe timeouts: pauses only up to / just past the armed deadline
-ScriptPto == <<{"phase"}, {"send"}, {"adv"}, {"tick"}, {"adv"}, {"tick"}, {"adv"}, {"tick"}, {"adv"}, {"tick"}>>
+ScriptPto == <<{"phase"}, {"send"}, {"adv"}, {"tick"}, {"adv"}, {"tick"}, {"adv"}, {"tick"}>>
+ScriptPto2 == <<{"phase"}, {"send"}, {"adv"}, {"tick"}, {"adv"}, {"tick"}, {"adv"}, {"tick"}, {"adv"}, {"tick"}>>
 AllFlags == <<<<TRUE, TRUE>>, <<FALSE, TRUE>>, <<FALSE, FALSE>>>>
 Flags == {AllFlags[k] : k \in GFlagSet}
 B(x) == IF x THEN 1 ELSE 0
